@@ -311,3 +311,29 @@ fn make_digits(a: &impl BigInteger, w: usize, num_bits: usize) -> impl Iterator<
         digit
     })
 }
+
+/// Entry points for the verification harness (compiled only with `--cfg arkworks_rs_algebra_verif`):
+/// the two bucket methods behind `msm_bigint` and the signed-digit recoding are private, and the
+/// plain bucket method is unreachable from any shipped group (they all have cheap negation).
+#[cfg(arkworks_rs_algebra_verif)]
+pub mod verif_hooks {
+    use super::*;
+
+    pub fn msm_bigint_plain<V: VariableBaseMSM>(
+        bases: &[V::MulBase],
+        bigints: &[<V::ScalarField as PrimeField>::BigInt],
+    ) -> V {
+        super::msm_bigint(bases, bigints)
+    }
+
+    pub fn msm_bigint_signed<V: VariableBaseMSM>(
+        bases: &[V::MulBase],
+        bigints: &[<V::ScalarField as PrimeField>::BigInt],
+    ) -> V {
+        super::msm_bigint_wnaf(bases, bigints)
+    }
+
+    pub fn make_digits_vec(a: &impl BigInteger, w: usize, num_bits: usize) -> Vec<i64> {
+        super::make_digits(a, w, num_bits).collect()
+    }
+}
